@@ -1,5 +1,6 @@
 """C17  Extinction curves are 10^(-0.4 R E) and compose additively in E(B-V); the Madau curve."""
 import math
+import warnings
 from fractions import Fraction as F
 
 from ..core import NP as np
@@ -81,12 +82,38 @@ def mut_of(case):
     return 'scale'
 
 
+def law_kwargs(d):
+    """non-default Empirical1D options a law may be built with"""
+    o = d.get('opts') or {}
+    kw = {}
+    if o.get('method'):
+        kw['method'] = o['method']
+    if o.get('fill') is not None:
+        kw['fill_value'] = None if o['fill'] == 'none' else float('nan') if o['fill'] == 'nan' else fl(o['fill'])
+    if o.get('bounds_error'):
+        kw['bounds_error'] = True
+    return kw
+
+
 def make_law(d, own=None):
     from synphot.models import Empirical1D
     from synphot.reddening import ReddeningLaw
     own = own if own is not None else Owned()
     return ReddeningLaw(Empirical1D, points=own.ndarray([fl(x) for x in d['pts']]),
-                        lookup_table=own.ndarray([fl(x) for x in d['vals']]), keep_neg=d['keep_neg'])
+                        lookup_table=own.ndarray([fl(x) for x in d['vals']]), keep_neg=d['keep_neg'],
+                        **law_kwargs(d))
+
+
+def law_values(law, at):
+    """R(lambda) as the law object itself returns it (None if it cannot be sampled there)"""
+    try:
+        with warnings.catch_warnings():
+            warnings.simplefilter('ignore')
+            r = law(np.array(at, dtype=float)).value
+        r = np.atleast_1d(r).astype(float).tolist()
+        return r if all(math.isfinite(x) for x in r) else None
+    except Exception:   # noqa
+        return None
 
 
 def make_ebv(d, own=None):
@@ -264,8 +291,10 @@ def impl_call(case):
                 except Exception:   # noqa
                     pass
             c = law.extinction_curve(make_ebv(case['ebv'], own), wavelengths=make_wave(case['wave'], own))
+            law_at = law_values(law, [fl(x) for x in case['at']]) if case['at'] else None
             own.scramble(how)       # the caller reuses its buffers; the curve is read only now
             out = curve_outcome(c, [fl(x) for x in case['at']])
+            out['law_at'] = law_at
             out['cls'] = type(c).__name__
             out['sampleset_none'] = c.model.sampleset() is None
             return out
@@ -327,20 +356,63 @@ def impl_call(case):
 
 
 # ------------------------------------------------------------------ model lines
+def model_law(case):
+    """the law description for the model.  A law built with non-default Empirical1D options (other interpolation
+    method, fill value, bounds_error) is not a `Core/Interp` table: the model is then given, as data, the R values the
+    law object returns at the sampling grid (a table whose knots are the grid itself); requests that fail before the
+    law is sampled use the plain description."""
+    law = case['law']
+    if not law.get('opts'):
+        return law
+    w = case.get('wave')
+    if case.get('madau') is not None:
+        return {k: v for k, v in law.items() if k != 'opts'}
+    grid = grid_of(case)
+    ebv_ok = case.get('ebv', {'kind': 'real'})['kind'] in ('real', 'mag')
+    if not ebv_ok or wave_error_class(grid) is not None or len(grid) < 2 or (w is not None and 'scalar' in w):
+        return {k: v for k, v in law.items() if k != 'opts'}
+    r = case.get('_law_R')
+    if r is None:
+        return None
+    return {'pts': qs(grid), 'vals': r, 'keep_neg': True}
+
+
+def attach_law_values(cases):
+    """data for the model: R at the sampling grid from the implementation's own law object"""
+    for c in cases:
+        if isinstance(c, dict) and c.get('op') in ('ext_curve', 'ext_pair', 'ext_apply') and \
+                (c.get('law') or {}).get('opts') and c.get('madau') is None:
+            c.pop('_law_R', None)
+            grid = grid_of(c)
+            if wave_error_class(grid) is None and len(grid) >= 2:
+                try:
+                    r = law_values(make_law(c['law']), grid)
+                except Exception:   # noqa
+                    r = None
+                # (a spline law may overshoot wildly between its knots: beyond |R| = 60 the curve leaves the binary64
+                # range for |E| <= 5, and nothing is claimed)
+                if r is not None and max(abs(x) for x in r) <= 60:
+                    c['_law_R'] = qs(r)
+
+
 def model_case(case):
     op = case['op']
+    if op in ('ext_curve', 'ext_pair', 'ext_apply'):
+        ml = model_law(case)
+        if ml is None:
+            return None
     if op == 'ext_curve':
-        return {'op': op, 'law': case['law'], 'ebv': {'kind': case['ebv']['kind'], 'v': case['ebv'].get('v')},
+        return {'op': op, 'law': ml, 'ebv': {'kind': case['ebv']['kind'], 'v': case['ebv'].get('v')},
                 'wave': model_wave(case['wave']), 'at': case['at']}
     if op == 'ext_pair':
-        return {'op': op, 'law': case['law'], 'a': case['a'], 'b': case['b'], 'wave': model_wave(case['wave']),
+        return {'op': op, 'law': ml, 'a': case['a'], 'b': case['b'], 'wave': model_wave(case['wave']),
                 'at': case['at']}
     if op == 'ext_apply':
         src = case['src']
         if src['kind'] not in ('table', 'const') or case.get('madau') is not None:
             return None         # analytic / composite sources and the Madau application: oracle only
         ms = {k: v for k, v in src.items() if k not in ('zhow',)}
-        return {'op': op, 'src': ms, 'law': case['law'],
+        return {'op': op, 'src': ms, 'law': ml,
                 'ebv': {'kind': case['ebv']['kind'], 'v': case['ebv'].get('v')},
                 'wave': model_wave(case['wave']), 'thr': q(THR), 'at': case['at']}
     if op == 'madau':
@@ -446,6 +518,15 @@ def edge_points(zv):
 
 
 # ------------------------------------------------------------------ oracles (implementation alone)
+def law_class(law):
+    o = law.get('opts') or {}
+    if not o:
+        return 'default'
+    return 'method=%s,fill=%s,bounds_error=%s' % (o.get('method') or 'linear',
+                                                   'number' if o.get('fill') not in (None, 'nan', 'none') else o.get('fill'),
+                                                   bool(o.get('bounds_error')))
+
+
 def oracle_ext_curve(rep, case, out):
     ebv = case['ebv']
     if ebv['kind'] in ('other_quantity', 'not_real'):
@@ -463,6 +544,8 @@ def oracle_ext_curve(rep, case, out):
         return
     if len(grid) < 2 or (case['wave'] is not None and 'scalar' in case['wave']):
         return                      # the statement does not speak about grids of fewer than two points
+    if case['law'].get('opts') and '_law_R' not in case:
+        return              # the law object itself cannot be sampled on this grid (bounds_error, extrapolation mode)
     if 'err' in out:
         rep.oracle_fail('ext_curve:valid:%s' % out['err'], 'valid request raised %s: %s' % (out['err'], out.get('msg')),
                         case, out)
@@ -471,13 +554,23 @@ def oracle_ext_curve(rep, case, out):
     e = fl(ebv['v'])
     if ebv['py'] == 'int':
         e = float(int(e))
-    r = law_reference(case['law'], grid)
-    expect = np.power(10.0, -0.4 * r * e)
     got = np.array(res['at'])
-    if got.shape != expect.shape or not np.all(np.abs(got - expect) <= 1e-9 * np.abs(expect)):
-        rep.oracle_fail('ext_curve:value', 'curve differs from 10^(-0.4 R E) at a sampled wavelength: got %s, expected %s'
-                        % (got.tolist()[:6], expect.tolist()[:6]), case, out)
-        return
+    if not case['law'].get('opts'):
+        # default options: R from an independent np.interp reference
+        r = law_reference(case['law'], grid)
+        expect = np.power(10.0, -0.4 * r * e)
+        if got.shape != expect.shape or not np.all(np.abs(got - expect) <= 1e-9 * np.abs(expect)):
+            rep.oracle_fail('ext_curve:value', 'curve differs from 10^(-0.4 R E) at a sampled wavelength: got %s, expected %s'
+                            % (got.tolist()[:6], expect.tolist()[:6]), case, out)
+            return
+    # every law: R(lambda) is what the law object itself returns at the sampled wavelengths
+    if res.get('law_at') is not None:
+        expect = np.power(10.0, -0.4 * np.array(res['law_at']) * e)
+        if got.shape != expect.shape or not np.all(np.abs(got - expect) <= 1e-9 * np.abs(expect)):
+            rep.oracle_fail('ext_curve:value_vs_law(%s)' % law_class(case['law']),
+                            'curve differs from 10^(-0.4 law(lambda) E) with law(lambda) sampled from the law object '
+                            'itself: got %s, expected %s' % (got.tolist()[:6], expect.tolist()[:6]), case, out)
+            return
     if e == 0 and not np.all(got == 1.0):
         rep.oracle_fail('ext_curve:E=0:not_unity', 'E(B-V) = 0 must give exactly 1', case, out)
     if res.get('cls') != 'ExtinctionCurve':
@@ -493,6 +586,8 @@ def oracle_ext_curve(rep, case, out):
 def oracle_ext_pair(rep, case, out):
     grid = grid_of(case)
     if wave_error_class(grid) is not None or len(grid) < 2:
+        return
+    if case['law'].get('opts') and '_law_R' not in case:
         return
     if 'err' in out:
         rep.oracle_fail('ext_pair:valid:%s' % out['err'], 'valid request raised %s: %s' % (out['err'], out.get('msg')),
@@ -519,6 +614,8 @@ def oracle_ext_apply(rep, case, out):
         if wave_error_class(grid) is not None or len(grid) < 2 or case['ebv']['kind'] not in ('real', 'mag'):
             return
     cls = src_class(case['src'])
+    if case['law'].get('opts') and '_law_R' not in case and case.get('madau') is None:
+        return
     if 'err' in out:
         rep.oracle_fail('ext_apply:valid:%s' % out['err'], 'valid request raised %s: %s' % (out['err'], out.get('msg')),
                         case, out)
@@ -632,7 +729,27 @@ def gen_law(rng, nmax):
         vals[0] = vals[-1] = 0.0
     if rng.random() < 0.25:
         pts, vals = pts[::-1], vals[::-1]
-    return {'pts': qs(pts), 'vals': qs(vals), 'keep_neg': keep}
+    law = {'pts': qs(pts), 'vals': qs(vals), 'keep_neg': keep}
+    if rng.random() < 0.2:
+        # non-default Empirical1D options: interpolation method, fill value, bounds_error
+        o = {}
+        m = rng.choice(['nearest', 'nearest', 'nearest', 'cubic', 'pchip', 'slinear', None])
+        if m in ('cubic', 'pchip') and n < 4:
+            m = 'nearest'
+        if m:
+            o['method'] = m
+        f = rng.random()
+        if f < 0.2:
+            o['fill'] = q(dy(rng, 0.25, 8, 2))
+        elif f < 0.3 and m in (None, 'nearest', 'slinear'):
+            o['fill'] = 'none'
+        elif f < 0.35:
+            o['fill'] = 'nan'
+        if rng.random() < 0.08:
+            o['bounds_error'] = True
+        if o:
+            law['opts'] = o
+    return law
 
 
 def law_is_positive(law):
@@ -1003,6 +1120,7 @@ def tags(c, o):
         t.append('curve:' + ('madau' if c.get('madau') is not None else 'extinction'))
     if c['op'] == 'ext_curve':
         t.append('prior_calls:%d' % len(c.get('prior', [])))
+        t.append('law:' + law_class(c['law']))
     if c['op'] == 'madau':
         t.append('madau_wave:' + c['wave']['py'])
     return t
@@ -1038,6 +1156,7 @@ def compare(c, o, m):
 
 
 def process(rep, cases):
+    attach_law_values(cases)
     return core.run_cases(rep, cases, impl_call, model_case, oracle, tags_fn=tags, nontrivial_fn=nontrivial,
                           compare_fn=compare)
 
@@ -1048,7 +1167,10 @@ def run(rep):
     cases = core.load_corpus('C17') + fixed_cases()
     cases += gen_cases(rng, 100000 if thorough else 2000, 40 if thorough else 10)
     rep.rule = ('positive Empirical1D reddening laws (2..N points in 300..30000 A, R in 0.01..56, both orders, keep_neg '
-                'either way; 5% with zero/negative entries or tapered ends for model validation) x E(B-V) in [-5, 5] as '
+                'either way; 5% with zero/negative entries or tapered ends for model validation; 20% built with non-default '
+                'Empirical1D options: method nearest / cubic / pchip / slinear, numeric / None / nan fill_value, '
+                'bounds_error - for these the oracle takes R from the law object itself and the model is given those R '
+                'values as data) x E(B-V) in [-5, 5] as '
                 'float / int / NumPy scalar / mag Quantity / Magnitude (and 6% invalid objects) x sampling grids (None = '
                 'own waveset, arrays inside/beyond the law range, on law knots, both orders, list/ndarray/Quantity in AA, nm, micron; 6% '
                 'invalid, 2.5% shorter than two points; 40% of the curves are requested after 1..3 earlier requests on the same law object with grids of the same length and end points, the reversed grid, a rescaled or an unrelated grid); pairs (a, b) on the lattice 1/64 with a, b, a+b in [-5, 5]; '
